@@ -1184,8 +1184,26 @@ def _equal(e, func, args, kwargs):
     return e.branch(e.all_same(a, b))
 
 
+@special(*_maybe("bincount.default"))
+def _bincount(e, func, args, kwargs):
+    b = bind(func, args, kwargs)
+    if b.get("weights") is not None:
+        raise Unsupported("bincount with weights")
+    a = e.read(b["self"]).reshape(-1)
+    n = int(b.get("minlength") or 0)
+    if n <= 0:
+        raise Unsupported("bincount without minlength on symbolic input (data-dependent length)")
+    for v in a:
+        if T.is_z(v) and not e.branch(z3and(v >= 0, v < n)):
+            raise Unsupported("bincount value outside [0, minlength)")
+    out = np.empty((n,), dtype=object)
+    for k in range(n):
+        out[k] = ssum([T.ite(T.eq(v, k), 1, 0) for v in a], 0)
+    return e.lift(out, torch.int64)
+
+
 @special(*_maybe("unique_consecutive.default", "_unique2.default", "unique_dim.default", "sort.default", "sort.stable",
-                 "argsort.default", "topk.default", "bincount.default", "histc.default"))
+                 "argsort.default", "topk.default", "histc.default"))
 def _datadep(e, func, args, kwargs):
     raise Unsupported(f"data-dependent op {func} on symbolic input")
 
